@@ -497,6 +497,9 @@ func tailCallFuncs(p *wgen.Program) map[fid]bool {
 // the module in the middle of a call (set per case by child).
 var hostCloseCase bool
 
+// closeCompiledCase: CompiledModule.Close() right after instantiation.
+var closeCompiledCase bool
+
 func runWith(p *wgen.Program, script []wrun.Step, compiler bool, mode int, subsetSeed uint64, cache wazero.CompilationCache) *runOut {
 	rec := &recorder{engine: map[bool]string{false: "interp", true: "compiler"}[compiler], all: mode == 1, tcFuncs: tailCallFuncs(p), counts: map[string]int{}}
 	rec.listened = func(f fid) bool {
@@ -539,6 +542,9 @@ func runWith(p *wgen.Program, script []wrun.Step, compiler bool, mode int, subse
 	s := wrun.NewSession(opt, wrun.Features(p.Cfg))
 	defer s.Close()
 	in := s.Instantiate(p, "guest")
+	if closeCompiledCase {
+		s.CloseCompiled(p)
+	}
 	rec.endStep() // start function activity must be closed too
 	out := &runOut{t: in.T, rec: rec}
 	for si, st := range script {
@@ -578,7 +584,13 @@ func child(mode string, in json.RawMessage) any {
 	script := wrun.GenScript(r, p, 3+r.Intn(6))
 	subsetSeed := r.U64()
 	hostCloseCase = lc.Seed%3 == 0 // a third of the cases: module closed mid-call under close-on-context-done
+	// a fifth of the cases: the embedder closes the CompiledModule right after instantiation (the instance stays
+	// usable); traps must still unwind through listeners although the engine no longer lists the compiled code
+	closeCompiledCase = lc.Seed%5 == 1
 	lr := lresult{Events: map[string]int{}}
+	if closeCompiledCase {
+		lr.Events["cases_with_compiled_module_closed_after_instantiation"] = 1
+	}
 	if hostCloseCase {
 		lr.Events["cases_with_host_close_enabled"] = 1
 	}
